@@ -775,4 +775,516 @@ theorem dense_of_arrivals (slot n : Nat) (arr : Nat → Int) (vis : Int → Nat)
         exact ih l m hpw'.2 hlen' hinc' (fun x hx => hseen x (List.mem_cons_of_mem _ hx)) hnext
           (fun hm x hx => hdone hm x (List.mem_cons_of_mem _ hx))
 
+/-! ## Part 4 — request / reply (FDL status)
+
+### The responder registers the request -/
+
+/-- `handle_telegram` (idle station) registering an FDL status request addressed to it. -/
+theorem handleTelegram_registers (c : Ctx) (now : Int) (np : Option Nat) (coll : Nat) (h : Header) (pdu : Bytes)
+    (fcb : FrameCountBit) (hst : c.s.st = .activeIdle none np coll) (hfc : h.fc = .request fcb .fdlStatus)
+    (hda : h.da.toNat = c.s.p.address) :
+    handleTelegram c now (.data h pdu) true =
+      .ok { c with s := { c.s with st := .activeIdle (some h.sa.toNat) np coll } } := by
+  unfold handleTelegram
+  rw [hst]
+  simp only [hfc, hda, and_self, if_true, upd]
+
+theorem doActiveIdle_registers (c : Ctx) (now l : Int) (np : Option Nat) (coll : Nat) (h : Header) (pdu : Bytes)
+    (fcb : FrameCountBit) (rx' : Bytes) (ret : Bool)
+    (hst : c.s.st = .activeIdle none np coll) (hl : c.s.lastBusActivity = some l) (hle : l ≤ now)
+    (hq : ¬ (now - l).natAbs ≥ c.s.p.tokenLostTimeout)
+    (hrx : receiveAll c.rx = .done rx' [(.data h pdu, true)] ret)
+    (hfc : h.fc = .request fcb .fdlStatus) (hda : h.da.toNat = c.s.p.address) :
+    doActiveIdle c now = .ok { c with rx := rx', s := { c.s with
+      st := .activeIdle (some h.sa.toNat) np coll, pendingBytes := 0, lastBusActivity := some now } } := by
+  have hh := handleTelegram_registers
+    { c with rx := rx', s := { c.s with pendingBytes := 0, lastBusActivity := some now } } now np coll h pdu fcb hst hfc hda
+  unfold doActiveIdle
+  rw [hst]
+  simp only
+  rw [handleLost_quiet c now l hl hq]
+  simp only [hst, hrx, foldTelegrams, upd]
+  rw [markRx_at _ _ _ hl hle, hh]
+  rfl
+
+/-- `do_listen_token`'s callback registering an FDL status request addressed to the station. -/
+theorem listenCore_registers (c : Ctx) (coll : Nat) (h : Header) (pdu : Bytes) (fcb : FrameCountBit)
+    (hon : c.s.online = true) (hst : c.s.st = .listenToken none coll) (hfc : h.fc = .request fcb .fdlStatus)
+    (hda : h.da.toNat = c.s.p.address) (hsa : h.sa.toNat ≠ c.s.p.address) :
+    listenTelegramCore c (.data h pdu) true =
+      .ok { c with s := { c.s with st := .listenToken (some h.sa.toNat) coll } } := by
+  unfold listenTelegramCore
+  rw [if_neg (by simp [hon]), hst]
+  simp only [Telegram.sourceAddress, Option.map_some, Option.some.injEq]
+  rw [if_neg hsa]
+  simp only [hfc, hda, and_self, if_true, upd]
+
+theorem doListenToken_registers (c : Ctx) (now l : Int) (coll : Nat) (h : Header) (pdu : Bytes)
+    (fcb : FrameCountBit) (rx' : Bytes) (ret : Bool) (hon : c.s.online = true)
+    (hst : c.s.st = .listenToken none coll) (hl : c.s.lastBusActivity = some l) (hle : l ≤ now)
+    (hq : ¬ (now - l).natAbs ≥ c.s.p.tokenLostTimeout)
+    (hrx : receiveAll c.rx = .done rx' [(.data h pdu, true)] ret)
+    (hfc : h.fc = .request fcb .fdlStatus) (hda : h.da.toNat = c.s.p.address) (hsa : h.sa.toNat ≠ c.s.p.address) :
+    doListenToken c now = .ok { c with rx := rx', s := { c.s with
+      st := .listenToken (some h.sa.toNat) coll, pendingBytes := 0, lastBusActivity := some now } } := by
+  have hh := listenCore_registers
+    { c with rx := rx', s := { c.s with pendingBytes := 0, lastBusActivity := some now } } coll h pdu fcb hon hst hfc hda hsa
+  unfold doListenToken
+  rw [hst]
+  simp only
+  rw [handleLost_quiet c now l hl hq]
+  simp only [hst, hrx, foldTelegrams, listenTelegram, upd]
+  rw [markRx_at _ _ _ hl hle, hh]
+  rfl
+
+/-! ### The responder waits for the synchronisation pause, then replies -/
+
+/-- A status request from `src` is registered (`ListenToken` or `ActiveIdle`). -/
+def Registered (s : Station) (src : Nat) : Prop :=
+  (∃ coll, s.st = .listenToken (some src) coll) ∨ (∃ np coll, s.st = .activeIdle (some src) np coll)
+
+theorem Registered.awake {s : Station} {src : Nat} (h : Registered s src) : s.st ≠ .offline ∧ s.st ≠ .passiveIdle := by
+  rcases h with ⟨a, h⟩ | ⟨a, b, h⟩ <;> rw [h] <;> simp
+
+theorem responder_handler_waits (c : Ctx) (now l : Int) (src : Nat) (hreg : Registered c.s src)
+    (hl : c.s.lastBusActivity = some l) (hq : ¬ (now - l).natAbs ≥ c.s.p.tokenLostTimeout)
+    (hw : now ≤ l + (c.s.p.bits 33 : Nat)) : dispatch c now = .ok c := by
+  unfold dispatch
+  rcases hreg with ⟨coll, hst⟩ | ⟨np, coll, hst⟩
+  · rw [hst]
+    simp only
+    unfold doListenToken
+    rw [hst]
+    simp only
+    rw [handleLost_quiet c now l hl hq]
+    simp only [hst]
+    rw [waitSync_some _ _ _ hl]
+    simp only [decide_eq_true_eq]
+    rw [if_pos hw]
+  · rw [hst]
+    simp only
+    unfold doActiveIdle
+    rw [hst]
+    simp only
+    rw [handleLost_quiet c now l hl hq]
+    simp only [hst]
+    rw [waitSync_some _ _ _ hl]
+    simp only [decide_eq_true_eq]
+    rw [if_pos hw]
+
+/-- State after the reply: an idle station stays idle; a listener joins (`ActiveIdle`) if its LAS is
+valid, otherwise keeps listening. -/
+def afterReply (s : Station) : FState :=
+  match s.st with
+  | .listenToken _ coll => if s.ring.readyForRing then .activeIdle none none 0 else .listenToken none coll
+  | .activeIdle _ np coll => .activeIdle none np coll
+  | st => st
+
+theorem responder_handler_goes (c : Ctx) (now l : Int) (src : Nat) (hreg : Registered c.s src) (htx : c.tx = none)
+    (hl : c.s.lastBusActivity = some l) (hq : ¬ (now - l).natAbs ≥ c.s.p.tokenLostTimeout)
+    (hsy : l + (c.s.p.bits 33 : Nat) < now) (c' : Ctx) (h : dispatch c now = .ok c') :
+    ∃ b, c'.tx = some b ∧ IsStatusReply c.s.p.address src b ∧ c'.s.st = afterReply c.s ∧ c'.calls = c.calls ∧
+      c'.rx = c.rx ∧ c'.s.p = c.s.p := by
+  unfold dispatch at h
+  rcases hreg with ⟨coll, hst⟩ | ⟨np, coll, hst⟩
+  · rw [hst] at h
+    simp only at h
+    unfold doListenToken at h
+    rw [hst] at h
+    simp only at h
+    rw [handleLost_quiet c now l hl hq] at h
+    simp only [hst] at h
+    rw [waitSync_some _ _ _ hl] at h
+    simp only [decide_eq_true_eq] at h
+    rw [if_neg (by omega)] at h
+    cases he : encodeOrPanic { c with s := c.s } now (fdlStatusResponseHeader (UInt8.ofNat src) (UInt8.ofNat c.s.p.address)
+        (if c.s.ring.readyForRing = true ∧ src = c.s.ring.ps then .masterWithoutToken else .masterNotReady) .ok) [] with
+    | panic s => rw [he] at h; cases h
+    | ok c1 =>
+      rw [he] at h
+      simp only [Res.bind] at h
+      obtain ⟨bytes, hser, -, rfl⟩ := encodeOrPanic_cases _ _ _ _ _ he
+      split at h
+      · rename_i hready
+        obtain ⟨s', hs', rfl⟩ := tr_cases _ _ _ _ h
+        have := toActiveIdle_inv hs'
+        subst this
+        exact ⟨bytes, rfl, ⟨_, hser⟩, by simp [afterReply, hst, markTx, hready], rfl, rfl, rfl⟩
+      · rename_i hready
+        cases h
+        exact ⟨bytes, rfl, ⟨_, hser⟩, by simp [afterReply, hst, upd, hready], rfl, rfl, rfl⟩
+  · rw [hst] at h
+    simp only at h
+    unfold doActiveIdle at h
+    rw [hst] at h
+    simp only at h
+    rw [handleLost_quiet c now l hl hq] at h
+    simp only [hst] at h
+    rw [waitSync_some _ _ _ hl] at h
+    simp only [decide_eq_true_eq] at h
+    rw [if_neg (by omega)] at h
+    cases he : encodeOrPanic { c with s := c.s } now (fdlStatusResponseHeader (UInt8.ofNat src) (UInt8.ofNat c.s.p.address)
+        .masterInRing .ok) [] with
+    | panic s => rw [he] at h; cases h
+    | ok c1 =>
+      rw [he] at h
+      simp only [Res.bind] at h
+      obtain ⟨bytes, hser, -, rfl⟩ := encodeOrPanic_cases _ _ _ _ _ he
+      cases h
+      exact ⟨bytes, rfl, ⟨_, hser⟩, by simp [afterReply, hst, upd], rfl, rfl, rfl⟩
+
+/-- Overwriting state, stamp and pending count makes `check_for_bus_activity` invisible. -/
+theorem checkBA_overwrite' (s : Station) (now : Int) (n : Nat) (st' : FState) (pb : Nat) (l' : Option Int) :
+    ({ (checkBusActivity s now n) with st := st', pendingBytes := pb, lastBusActivity := l' } : Station) =
+      { s with st := st', pendingBytes := pb, lastBusActivity := l' } := by
+  unfold checkBusActivity; split <;> simp [markBusActivity]
+
+/-- **The registering poll, `ActiveIdle`**: an idle station polled (later than its stamp, PHY idle, token-lost
+time-out not run out) with a buffer that decodes to exactly one telegram, an FDL status request addressed
+to it: nothing is transmitted, the request is registered, stamp := poll time. -/
+theorem idle_poll_registers (s : Station) (apps : Apps) (r1 : Int) (rx rx' : Bytes) (np : Option Nat) (coll : Nat)
+    (h : Header) (pdu : Bytes) (fcb : FrameCountBit) (ret : Bool) (hon : s.online = true)
+    (hst : s.st = .activeIdle none np coll)
+    (hlate : ∀ l, s.lastBusActivity = some l → l < r1) (hto : 0 < s.p.tokenLostTimeout)
+    (hfresh : s.pendingBytes < rx.length ∨ ∃ l, s.lastBusActivity = some l ∧ r1 < l + (s.p.tokenLostTimeout : Nat))
+    (hrx : receiveAll rx = .done rx' [(.data h pdu, true)] ret)
+    (hfc : h.fc = .request fcb .fdlStatus) (hda : h.da.toNat = s.p.address) :
+    s.poll apps r1 false rx = .ok {
+      s := { s with st := .activeIdle (some h.sa.toNat) np coll, pendingBytes := 0, lastBusActivity := some r1 },
+      apps := apps, rx := rx' } := by
+  obtain ⟨hf1, hf2, -⟩ := checkBA_fields s r1 rx.length
+  obtain ⟨l1, hl1, hle1, hcase⟩ := checkBA_stamp s r1 rx.length hlate
+    (hfresh.imp id (fun ⟨l, h, _⟩ => ⟨l, h⟩))
+  rw [poll_dispatch s apps r1 rx hon (by rw [hst]; simp) (by rw [hst]; simp) hlate]
+  unfold dispatch
+  simp only [hf1, hst]
+  have hq : ¬ (r1 - l1).natAbs ≥ (checkBusActivity s r1 rx.length).p.tokenLostTimeout := by
+    rw [hf2]
+    rcases hcase with ⟨_, rfl⟩ | ⟨hn, hl⟩
+    · simp; omega
+    · rcases hfresh with h | ⟨l, hl', hlt⟩
+      · exact absurd h hn
+      · rw [hl] at hl'; cases hl'; omega
+  rw [doActiveIdle_registers { s := checkBusActivity s r1 rx.length, apps := apps, rx := rx } r1 l1 np coll h pdu fcb rx' ret
+    (by simp only [hf1, hst]) hl1 hle1 hq hrx hfc (by simp only [hf2]; exact hda)]
+  simp only
+  rw [checkBA_overwrite']
+
+/-- **The registering poll, `ListenToken`** (the request must not carry the station's own address as
+source — that would count as an address collision). -/
+theorem listen_poll_registers (s : Station) (apps : Apps) (r1 : Int) (rx rx' : Bytes) (coll : Nat)
+    (h : Header) (pdu : Bytes) (fcb : FrameCountBit) (ret : Bool) (hon : s.online = true)
+    (hst : s.st = .listenToken none coll)
+    (hlate : ∀ l, s.lastBusActivity = some l → l < r1) (hto : 0 < s.p.tokenLostTimeout)
+    (hfresh : s.pendingBytes < rx.length ∨ ∃ l, s.lastBusActivity = some l ∧ r1 < l + (s.p.tokenLostTimeout : Nat))
+    (hrx : receiveAll rx = .done rx' [(.data h pdu, true)] ret)
+    (hfc : h.fc = .request fcb .fdlStatus) (hda : h.da.toNat = s.p.address) (hsa : h.sa.toNat ≠ s.p.address) :
+    s.poll apps r1 false rx = .ok {
+      s := { s with st := .listenToken (some h.sa.toNat) coll, pendingBytes := 0, lastBusActivity := some r1 },
+      apps := apps, rx := rx' } := by
+  obtain ⟨hf1, hf2, -, hf4, -⟩ := checkBA_fields s r1 rx.length
+  obtain ⟨l1, hl1, hle1, hcase⟩ := checkBA_stamp s r1 rx.length hlate
+    (hfresh.imp id (fun ⟨l, h, _⟩ => ⟨l, h⟩))
+  rw [poll_dispatch s apps r1 rx hon (by rw [hst]; simp) (by rw [hst]; simp) hlate]
+  unfold dispatch
+  simp only [hf1, hst]
+  have hq : ¬ (r1 - l1).natAbs ≥ (checkBusActivity s r1 rx.length).p.tokenLostTimeout := by
+    rw [hf2]
+    rcases hcase with ⟨_, rfl⟩ | ⟨hn, hl⟩
+    · simp; omega
+    · rcases hfresh with h | ⟨l, hl', hlt⟩
+      · exact absurd h hn
+      · rw [hl] at hl'; cases hl'; omega
+  rw [doListenToken_registers { s := checkBusActivity s r1 rx.length, apps := apps, rx := rx } r1 l1 coll h pdu fcb rx' ret
+    (by simp only [hf4]; exact hon) (by simp only [hf1, hst]) hl1 hle1 hq hrx hfc (by simp only [hf2]; exact hda)
+    (by simp only [hf2]; exact hsa)]
+  simp only
+  rw [checkBA_overwrite']
+
+/-- A poll of a station with a registered request before the end of the synchronisation pause is a
+complete no-op (provided the token-lost time-out is longer than the pause). -/
+theorem responder_poll_waits (s : Station) (apps : Apps) (now l : Int) (src : Nat) (hon : s.online = true)
+    (hreg : Registered s src) (hl : s.lastBusActivity = some l)
+    (hto : s.p.bits 33 < s.p.tokenLostTimeout) (hw : now ≤ l + (s.p.bits 33 : Nat)) :
+    s.poll apps now false [] = .ok { s := s, apps := apps, rx := [] } := by
+  by_cases hle : now ≤ l
+  · exact poll_ongoing s apps now false [] hon hreg.awake.1 hreg.awake.2 l hl hle
+  · rw [poll_dispatch s apps now [] hon hreg.awake.1 hreg.awake.2
+      (by intro l' hl'; rw [hl] at hl'; cases hl'; omega)]
+    simp only [List.length_nil, checkBus_nil]
+    exact responder_handler_waits { s := s, apps := apps, rx := [] } now l src hreg hl (by simp only; omega) hw
+
+/-- **The first poll later than 33 bit times after the registration replies** (silent bus, PHY idle, token-lost
+time-out not run out): the FDL status reply to the requester goes out, the request is cleared. -/
+theorem responder_poll_goes (s : Station) (apps : Apps) (now l : Int) (src : Nat) (hinv : Inv s apps)
+    (hon : s.online = true) (hreg : Registered s src) (hl : s.lastBusActivity = some l)
+    (hsy : l + (s.p.bits 33 : Nat) < now) (hq : now < l + (s.p.tokenLostTimeout : Nat)) :
+    ∃ c' b, s.poll apps now false [] = .ok c' ∧ c'.tx = some b ∧ IsStatusReply s.p.address src b ∧
+      c'.s.st = afterReply s ∧ c'.calls = [] ∧ c'.rx = [] ∧
+      c'.s.lastBusActivity = some (now + (s.p.bits (11 * b.length) : Nat)) ∧ Inv c'.s c'.apps := by
+  obtain ⟨c', hc', hinv', -⟩ := pollInner_good { s := s, apps := apps, rx := [] } now false hinv rfl
+  have hd : s.poll apps now false [] = dispatch { s := s, apps := apps, rx := [] } now := by
+    rw [poll_dispatch s apps now [] hon hreg.awake.1 hreg.awake.2
+      (by intro l' hl'; rw [hl] at hl'; cases hl'; omega)]
+    simp only [List.length_nil, checkBus_nil]
+  have hc'' : s.poll apps now false [] = .ok c' := hc'
+  rw [hd] at hc''
+  obtain ⟨b, h1, h2, h3, h4, h5, h6⟩ := responder_handler_goes { s := s, apps := apps, rx := [] } now l src hreg rfl hl
+    (by simp only; omega) hsy c' hc''
+  have hmark := pollInner_marks { s := s, apps := apps, rx := [] } now false c' b hc' rfl h1
+  exact ⟨c', b, hc', h1, h2, h3, h4, h5, by rw [hmark, h6], hinv'⟩
+
+/-- Silent-bus schedule of a responder: the polls at the times `early` are complete no-ops, the poll at
+`t` hands the FDL status reply to `src` to the PHY. -/
+def QuietThenReply (ts src : Nat) : Station → Apps → List Int → Int → Prop
+  | s, apps, [], t => ∃ c b, s.poll apps t false [] = .ok c ∧ c.tx = some b ∧ IsStatusReply ts src b ∧
+      c.s.st = afterReply s ∧ c.calls = [] ∧ c.s.lastBusActivity = some (t + (s.p.bits (11 * b.length) : Nat))
+  | s, apps, e :: es, t => s.poll apps e false [] = .ok { s := s, apps := apps, rx := [] } ∧
+      QuietThenReply ts src s apps es t
+
+theorem responder_schedule (s : Station) (apps : Apps) (l t : Int) (src : Nat) (hinv : Inv s apps)
+    (hon : s.online = true) (hreg : Registered s src) (hl : s.lastBusActivity = some l)
+    (hto : s.p.bits 33 < s.p.tokenLostTimeout)
+    (hsy : l + (s.p.bits 33 : Nat) < t) (hq : t < l + (s.p.tokenLostTimeout : Nat)) :
+    ∀ early : List Int, (∀ e ∈ early, e ≤ l + (s.p.bits 33 : Nat)) → QuietThenReply s.p.address src s apps early t := by
+  intro early
+  induction early with
+  | nil =>
+    intro _
+    obtain ⟨c', b, h1, h2, h3, h4, h5, -, h7, -⟩ := responder_poll_goes s apps t l src hinv hon hreg hl hsy hq
+    exact ⟨c', b, h1, h2, h3, h4, h5, h7⟩
+  | cons e es ih =>
+    intro he
+    exact ⟨responder_poll_waits s apps e l src hon hreg hl hto (he e (by simp)), ih (fun x hx => he x (by simp [hx]))⟩
+
+/-! ### The requester does not give up early -/
+
+/-- `await_gap_poll_response` with the slot time not expired never reports `NoResponse`; while no
+complete telegram has arrived it only (possibly) trims the buffer and reports `WaitingForBus`. -/
+theorem awaitGap_not_expired (c : Ctx) (now l1 : Int) (addr : Nat) (c1 : Ctx) (g : GapPollResponse)
+    (hl : c.s.lastBusActivity = some l1) (hq : ¬ now > l1 + (c.s.p.slotTime : Nat))
+    (h : awaitGapPollResponse c now addr = (.ok c1, g)) :
+    g ≠ .noResponse ∧
+    (∀ rx' ret, receiveTelegram c.rx = .done rx' [] ret → c1 = { c with rx := rx' } ∧ g = .waitingForBus) := by
+  unfold awaitGapPollResponse at h
+  split at h
+  · cases h
+  split at h
+  · cases h
+  split at h
+  · cases h
+  · cases h
+  · rename_i rx0 ret0 hrx0
+    simp only at h
+    rw [checkSlot_some _ _ _ hl] at h
+    simp only [decide_eq_true_eq] at h
+    rw [if_neg hq] at h
+    injection h with h1 h2
+    cases h1
+    subst h2
+    refine ⟨by simp, fun rx' ret hrx => ?_⟩
+    rw [hrx0] at hrx
+    cases hrx
+    exact ⟨rfl, rfl⟩
+  · rename_i rx0 t fl tl ret0 hrx0
+    have hno : ∀ rx' ret, receiveTelegram c.rx = .done rx' [] ret →
+        c1 = { c with rx := rx' } ∧ g = .waitingForBus := by
+      intro rx' ret hrx; rw [hrx0] at hrx; cases hrx
+    refine ⟨?_, hno⟩
+    simp only at h
+    repeat' split at h
+    all_goals first
+      | (cases h; done)
+      | (injection h with h1 h2; subst h2; simp)
+
+/-- A requester state: waiting for the reply to a GAP poll (from `PassToken` or while claiming) or
+to an application request. -/
+def Awaiting (s : Station) : Prop :=
+  (∃ a, s.st = .awaitStatus a) ∨ (∃ a, s.st = .claimToken (.scanAwait a)) ∨ (∃ a d, s.st = .awaitData a d)
+
+theorem Awaiting.awake {s : Station} (h : Awaiting s) : s.st ≠ .offline ∧ s.st ≠ .passiveIdle := by
+  rcases h with ⟨a, h⟩ | ⟨a, h⟩ | ⟨a, d, h⟩ <;> rw [h] <;> simp
+
+/-- The application callbacks a non-expiring requester poll can make: none, or the delivery of the
+admitted reply — never a `timeout`. -/
+def NoTimeout (before after : List AppCall) : Prop :=
+  after = before ∨ ∃ i a t, after = before ++ [.reply i a t]
+
+theorem requester_handler_waits (c : Ctx) (now l1 : Int) (c' : Ctx) (haw : Awaiting c.s)
+    (hl : c.s.lastBusActivity = some l1) (hq : ¬ now > l1 + (c.s.p.slotTime : Nat))
+    (h : dispatch c now = .ok c') :
+    c'.tx = c.tx ∧ NoTimeout c.calls c'.calls ∧
+    (∀ rx' ret, receiveTelegram c.rx = .done rx' [] ret → c' = { c with rx := rx' }) := by
+  unfold dispatch at h
+  rcases haw with ⟨a, hst⟩ | ⟨a, hst⟩ | ⟨a, d, hst⟩
+  · rw [hst] at h
+    simp only at h
+    unfold doAwaitStatusResponse at h
+    rw [hst] at h
+    simp only at h
+    rcases hg : awaitGapPollResponse c now a with ⟨r, g⟩
+    rw [hg] at h
+    cases r with
+    | panic s => cases h
+    | ok c1 =>
+      obtain ⟨hno, hw⟩ := awaitGap_not_expired c now l1 a c1 g hl hq hg
+      obtain ⟨htx, -⟩ := awaitGap_spec c now a c1 g hg
+      obtain ⟨hqu, -⟩ := awaitGap_eff c c1 now a g hg
+      cases g with
+      | noResponse => exact absurd rfl hno
+      | waitingForBus =>
+        simp only at h
+        cases h
+        exact ⟨htx, .inl hqu.calls, fun rx' ret hrx => (hw rx' ret hrx).1⟩
+      | responded =>
+        simp only at h
+        refine ⟨(tr_noTx _ _ _ c' h).trans htx, .inl ((tr_calls _ _ _ c' h).trans hqu.calls), fun rx' ret hrx => ?_⟩
+        have := (hw rx' ret hrx).2; cases this
+      | unexpected =>
+        simp only at h
+        refine ⟨(tr_noTx _ _ _ c' h).trans htx, .inl ((tr_calls _ _ _ c' h).trans hqu.calls), fun rx' ret hrx => ?_⟩
+        have := (hw rx' ret hrx).2; cases this
+  · rw [hst] at h
+    simp only at h
+    unfold doClaimToken at h
+    rw [hst] at h
+    simp only at h
+    rcases hg : awaitGapPollResponse c now a with ⟨r, g⟩
+    rw [hg] at h
+    cases r with
+    | panic s => cases h
+    | ok c1 =>
+      obtain ⟨hno, hw⟩ := awaitGap_not_expired c now l1 a c1 g hl hq hg
+      obtain ⟨htx, -⟩ := awaitGap_spec c now a c1 g hg
+      obtain ⟨hqu, -⟩ := awaitGap_eff c c1 now a g hg
+      cases g with
+      | noResponse => exact absurd rfl hno
+      | waitingForBus =>
+        simp only at h
+        cases h
+        exact ⟨htx, .inl hqu.calls, fun rx' ret hrx => (hw rx' ret hrx).1⟩
+      | responded =>
+        simp only at h
+        cases h
+        refine ⟨(upd_tx _ _).trans htx, .inl hqu.calls, fun rx' ret hrx => ?_⟩
+        have := (hw rx' ret hrx).2; cases this
+      | unexpected =>
+        simp only at h
+        refine ⟨(tr_noTx _ _ _ c' h).trans htx, .inl ((tr_calls _ _ _ c' h).trans hqu.calls), fun rx' ret hrx => ?_⟩
+        have := (hw rx' ret hrx).2; cases this
+  · rw [hst] at h
+    simp only at h
+    unfold doAwaitDataResponse at h
+    rw [hst] at h
+    simp only at h
+    split at h
+    · cases h
+    rcases hrx0 : receiveTelegram c.rx with ⟨rx0, calls0, ret0⟩ | _ | _ <;> rw [hrx0] at h <;> try simp only at h
+    · cases calls0 with
+      | nil =>
+        simp only at h
+        rw [checkSlot_some _ _ _ hl] at h
+        simp only [decide_eq_true_eq] at h
+        rw [if_neg hq] at h
+        cases h
+        exact ⟨rfl, .inl rfl, fun rx' ret hrx => by cases hrx; rfl⟩
+      | cons x rest =>
+        obtain ⟨t, fl⟩ := x
+        have hno : ∀ rx' ret, RxResult.done rx0 ((t, fl) :: rest) ret0 = .done rx' [] ret → c' = { c with rx := rx' } := by
+          intro rx' ret hrx; cases hrx
+        simp only at h
+        rcases ite_inv h with ⟨_, h⟩ | ⟨_, h⟩
+        · -- valid reply: delivered, back to `UseToken`
+          obtain ⟨c2, h2, h3⟩ := bind_ok_inv h
+          cases h3
+          have e1 := tr_noTx _ _ _ c2 h2
+          have e2 := tr_calls _ _ _ c2 h2
+          exact ⟨(upd_tx _ _).trans e1, .inr ⟨_, _, _, e2⟩, hno⟩
+        · have e1 := tr_noTx _ _ _ c' h
+          have e2 := tr_calls _ _ _ c' h
+          exact ⟨e1, .inl e2, hno⟩
+    · cases h
+    · cases h
+
+/-- **One poll of a waiting requester that does not find the slot time expired** (not later than stamp +
+slot time, or a new byte is pending — then whatever the time): nothing is transmitted, no `timeout` is
+reported to an application; while no complete telegram has arrived the station is unchanged except for
+the registered activity. -/
+theorem requester_poll_waits (s : Station) (apps : Apps) (now : Int) (rx : Bytes) (c' : Ctx) (l : Int)
+    (hon : s.online = true) (haw : Awaiting s) (hl : s.lastBusActivity = some l) (hlt : l < now)
+    (hne : s.pendingBytes < rx.length ∨ now ≤ l + (s.p.slotTime : Nat))
+    (h : s.poll apps now false rx = .ok c') :
+    c'.tx = none ∧ NoTimeout [] c'.calls ∧
+    (∀ rx' ret, receiveTelegram rx = .done rx' [] ret →
+      c' = { s := checkBusActivity s now rx.length, apps := apps, rx := rx' }) := by
+  have hlate : ∀ l', s.lastBusActivity = some l' → l' < now := by
+    intro l' hl'; rw [hl] at hl'; cases hl'; exact hlt
+  obtain ⟨hf1, hf2, -⟩ := checkBA_fields s now rx.length
+  obtain ⟨l1, hl1, hle1, hcase⟩ := checkBA_stamp s now rx.length hlate (.inr ⟨l, hl⟩)
+  rw [poll_dispatch s apps now rx hon haw.awake.1 haw.awake.2 hlate] at h
+  have hq : ¬ now > l1 + ((checkBusActivity s now rx.length).p.slotTime : Nat) := by
+    rw [hf2]
+    rcases hcase with ⟨_, rfl⟩ | ⟨hn, hl'⟩
+    · omega
+    · rcases hne with h' | h'
+      · exact absurd h' hn
+      · rw [hl] at hl'; cases hl'; omega
+  have haw1 : Awaiting ({ s := checkBusActivity s now rx.length, apps := apps, rx := rx } : Ctx).s := by
+    unfold Awaiting
+    simp only [hf1]
+    exact haw
+  exact requester_handler_waits _ now l1 c' haw1 hl1 hq h
+
+/-- All polls of the list return regularly, transmit nothing and report no `timeout`, for as long as the
+polls find no complete telegram in the receive buffer. -/
+def AwaitsQuietly : Station → Apps → List (Int × Bytes) → Prop
+  | _, _, [] => True
+  | s, apps, (a, rx) :: rest => ∃ c, s.poll apps a false rx = .ok c ∧ c.tx = none ∧ NoTimeout [] c.calls ∧
+      ((∃ rx' ret, receiveTelegram rx = .done rx' [] ret) → c.s.st = s.st ∧ AwaitsQuietly c.s c.apps rest)
+
+theorem requester_run (p : Params) : ∀ (polls : List (Int × Bytes)) (s : Station) (apps : Apps) (l : Int),
+    Inv s apps → s.online = true → Awaiting s → s.lastBusActivity = some l → s.p = p →
+    Dense p.slotTime l s.pendingBytes polls → AwaitsQuietly s apps polls := by
+  intro polls
+  induction polls with
+  | nil => intro s apps l _ _ _ _ _ _; trivial
+  | cons x rest ih =>
+    intro s apps l hinv hon haw hl hp hd
+    obtain ⟨a, rx⟩ := x
+    simp only [Dense] at hd
+    by_cases hle : a ≤ l
+    · rw [if_pos hle] at hd
+      refine ⟨_, poll_ongoing s apps a false rx hon haw.awake.1 haw.awake.2 l hl hle, rfl, .inl rfl, fun _ => ⟨rfl, ?_⟩⟩
+      exact ih s apps l hinv hon haw hl hp hd
+    · rw [if_neg hle] at hd
+      obtain ⟨c', hc', hinv', -⟩ := pollInner_good { s := s, apps := apps, rx := rx } a false hinv rfl
+      have hne : s.pendingBytes < rx.length ∨ a ≤ l + (s.p.slotTime : Nat) := by
+        by_cases hn : s.pendingBytes < rx.length
+        · exact .inl hn
+        · rw [if_neg hn] at hd; rw [hp]; exact .inr hd.1
+      obtain ⟨h1, h2, h3⟩ := requester_poll_waits s apps a rx c' l hon haw hl (by omega) hne hc'
+      refine ⟨c', hc', h1, h2, fun ⟨rx', ret, hrx⟩ => ?_⟩
+      have hs := h3 rx' ret hrx
+      subst hs
+      obtain ⟨hf1, hf2, -, hf4, -⟩ := checkBA_fields s a rx.length
+      have hlate : ∀ l', s.lastBusActivity = some l' → l' < a := by
+        intro l' hl'; rw [hl] at hl'; cases hl'; omega
+      have hlast := checkBA_last s a rx.length hlate
+      have haw' : Awaiting (checkBusActivity s a rx.length) := by
+        unfold Awaiting; rw [hf1]; exact haw
+      refine ⟨hf1, ?_⟩
+      by_cases hn : s.pendingBytes < rx.length
+      · rw [if_pos hn] at hd
+        rw [if_pos hn] at hlast
+        refine ih _ apps a hinv' (hf4.trans hon) haw' hlast (hf2.trans hp) ?_
+        have : (checkBusActivity s a rx.length).pendingBytes = rx.length := by
+          unfold checkBusActivity; rw [if_pos hn]
+        rw [this]; exact hd
+      · rw [if_neg hn] at hd
+        rw [if_neg hn] at hlast
+        refine ih _ apps l hinv' (hf4.trans hon) haw' (hlast.trans hl) (hf2.trans hp) ?_
+        have : (checkBusActivity s a rx.length).pendingBytes = s.pendingBytes := by
+          unfold checkBusActivity; rw [if_neg hn]
+        rw [this]; exact hd.2
+
 end PV
